@@ -1,4 +1,4 @@
-"""C01 -- rename preserves the program (structural clauses R01.1-R01.3)."""
+"""C01 -- rename preserves the program (structural clauses R01.1-R01.8)."""
 from __future__ import annotations
 
 import ast
@@ -15,9 +15,9 @@ EXPLANATION = (
     "class scope's propagated names are empty on every path, so a method body never resolves a free name to a class "
     "attribute.  R01.2: global/nonlocal declarations have binding handlers in the scope visitors (visitor x grammar "
     "coverage).  R01.3: the single-file shortcut of rename returns true only under 'holding scope is a function' and "
-    "'the name is an assigned name'.  R01.4: at a call keyword the offset evaluator never falls through to generic "
-    "scope evaluation.  R01.5: ChangeCollector applies edits sorted by offset over the original text with an advancing "
-    "watermark and keeps the tail.  R01.6: a module rename appends '.py' exactly for files.  Alpha-equivalence of the rewritten program is a runtime fact and is not decided."
+    "'the name is an assigned name'.  R01.4: inside call parentheses the offset evaluator never falls through from the keyword branch to generic "
+    "scope evaluation, and outside any call it does (the keyword test is textual and also holds for tuple targets).  R01.5: ChangeCollector applies edits sorted by offset over the original text with an advancing "
+    "watermark and keeps the tail.  R01.6: a module rename appends '.py' exactly for files.  R01.7: name tables merged from several sources give the winner the language prescribes (last star import, first base class).  R01.8: an absolute module name is searched on the source folders and the python path before the importer's own folder.  Alpha-equivalence of the rewritten program is a runtime fact and is not decided."
 )
 ASSUMPTIONS = ["scope classes are the subclasses of rope.base.pyscopes.Scope found in the working tree"]
 
@@ -86,6 +86,14 @@ def class_scope_rule(ctx, res, rule: str) -> None:
 
 
 def check(ctx, res) -> None:
+    _check_main(ctx, res)
+    from .common import merge_precedence_rule, module_search_order_rule
+
+    merge_precedence_rule(ctx, res, "R01.7")
+    module_search_order_rule(ctx, res, "R01.8")
+
+
+def _check_main(ctx, res) -> None:
     idx = ctx.idx
     class_scope_rule(ctx, res, "R01.1")
 
@@ -155,12 +163,25 @@ def check(ctx, res) -> None:
         raise AnalysisError("anchor=get_primary_and_pyname_at: keyword-parameter test or generic scope evaluation not found")
     t = kw_tests[0]
     tgt = [b for b, l in cfg.succ[t.id] if l == "true"]
-    reach = cfg.reachable(tgt[0], labels={"", "true", "false", "return", "case", "nomatch"}) if tgt else set()
-    leak = [n for n in generic if n.id in reach]
+    LABS = {"", "true", "false", "return", "case", "nomatch"}
+    # `is_function_keyword_parameter` is a textual test (word preceded by ',' or '(' and followed by '='): it also holds for
+    # the targets of `a, b = 1, 2`.  So two things are necessary: (i) INSIDE call parentheses no path reaches the generic
+    # scope evaluation, (ii) OUTSIDE any call a path to the generic evaluation exists (the word is an ordinary name).
+    in_call_false = [(n.id, d, l) for n in cfg.nodes if n.kind == "test" and isinstance(n.ast, ast.Call) and call_name(n.ast) == "is_on_function_call_keyword"
+                     for d, l in cfg.succ[n.id] if l == "false"]
+    reach_all = cfg.reachable(tgt[0], labels=LABS) if tgt else set()
+    reach_in_call = cfg.reachable(tgt[0], labels=LABS, avoid_edges=in_call_false) if tgt else set()
+    leak = [n for n in generic if n.id in reach_in_call]
     res.add("R01.4", "get_primary_and_pyname_at|call-keyword", not leak, g.where,
-            "on the call-keyword path every exit returns inside the branch: a keyword is never evaluated as a scope name" if not leak else
+            "inside call parentheses every exit of the keyword branch returns there: a keyword is never evaluated as a scope name" if not leak else
             "when the offset is a call keyword (f(width=...)) a path falls through to the generic scope evaluation: the keyword resolves to a same-named "
             "variable of the calling scope, so renaming that variable also rewrites the keyword and the callee receives a different keyword argument")
+    through = [n for n in generic if n.id in reach_all]
+    res.add("R01.4", "get_primary_and_pyname_at|non-call-falls-through", bool(through), g.where,
+            "a word that only looks like a keyword (a tuple target `a, b = 1, 2`) still reaches the generic scope evaluation" if through else
+            "every word that is preceded by ',' or '(' and followed by '=' is answered inside the keyword branch, although the test is textual and also "
+            "holds for the targets of `a, b = 1, 2` / `for a, b in ...`: such a target is no longer resolvable, rename from its definition is refused and "
+            "rename from a use rewrites only the uses (NameError)")
 
     change_collector_rule(ctx, res, "R01.5")
 
